@@ -601,6 +601,8 @@ def gen_sizing(rng, n, tag='z'):
                 L.append('cms %d %d' % (f64bits(eps), f64bits(delta)))
             else:
                 nn = rng.choice([1, 1, 2, 3, 4, 10, 100, 1000, 3000, 50000, 0 if rng.random() < 0.1 else 8])
+                if rng.random() < 0.06:
+                    nn = rng.choice([300000, 1000000])       # bucket counts beyond 2^16 (narrowing casts)
                 L.append('%s %d %d' % (rng.choice(['cuckoo4', 'cuckoo8']), f64bits(pr), nn))
         out.append(case('%s%d' % (tag, c), 'sizing', {}, L))
     return out
